@@ -274,13 +274,13 @@ func TestD12UnboundParameterInExpression(t *testing.T) {
 // D13 (C18/C10): an expression operator message without its kind must be an error, not a nil dereference.
 func TestD13OperatorWithoutKind(t *testing.T) {
 	// AuthorizerPolicies{version:3, policies:[{queries:[{head:{name:27}, expressions:[{ops:[{Binary:{}}]}]}], kind:Allow}]}
-	op := []byte{0x1a, 0x00}                                  // Op.Binary = empty message (kind missing)
-	expr := append([]byte{0x0a, byte(len(op))}, op...)        // ExpressionV2.ops
-	head := []byte{0x08, 27}                                  // PredicateV2.name = 27
-	rule := append([]byte{0x0a, byte(len(head))}, head...)    // RuleV2.head
+	op := []byte{0x1a, 0x00}                                               // Op.Binary = empty message (kind missing)
+	expr := append([]byte{0x0a, byte(len(op))}, op...)                     // ExpressionV2.ops
+	head := []byte{0x08, 27}                                               // PredicateV2.name = 27
+	rule := append([]byte{0x0a, byte(len(head))}, head...)                 // RuleV2.head
 	rule = append(rule, append([]byte{0x1a, byte(len(expr))}, expr...)...) // RuleV2.expressions
-	pol := append([]byte{0x0a, byte(len(rule))}, rule...)     // Policy.queries
-	pol = append(pol, 0x10, 0x00)                             // Policy.kind = Allow
+	pol := append([]byte{0x0a, byte(len(rule))}, rule...)                  // Policy.queries
+	pol = append(pol, 0x10, 0x00)                                          // Policy.kind = Allow
 	msg := append([]byte{0x10, 0x03}, append([]byte{0x32, byte(len(pol))}, pol...)...)
 	_, priv := keys(1)
 	tok, _ := biscuit.NewBuilder(priv, biscuit.WithRNG(&detRNG{})).Build()
